@@ -371,8 +371,10 @@ type gcCase struct {
 	Cap      int    `json:"cap"`
 	GCers    int    `json:"gcers"` // goroutines forcing collections
 	// PlainFirst: the pointer-free components are registered before the pointer-holding ones.
-	PlainFirst bool   `json:"plainfirst,omitempty"`
-	Ops        []gcOp `json:"ops"`
+	PlainFirst bool `json:"plainfirst,omitempty"`
+	// Fill: number of filler component types registered before all others.
+	Fill int    `json:"fill,omitempty"`
+	Ops  []gcOp `json:"ops"`
 }
 
 type gcEnt struct {
@@ -399,9 +401,13 @@ type gcWorld struct {
 	moves   int
 }
 
-func newGCWorld(cap int, plainFirst bool) *gcWorld {
+func newGCWorld(cap int, plainFirst bool, fill int) *gcWorld {
 	w := ecs.NewWorld(ecs.NewConfig().WithCapacityIncrement(cap))
 	g := &gcWorld{w: &w, book: newRefBook(), labels: map[string]bool{}}
+	// filler types first: the pointer-holding components then get high ids (other mask words)
+	for i := 0; i < fill && i < ecs.MaskTotalBits-12; i++ {
+		ecs.TypeID(&w, core.FillerType(3000+i))
+	}
 	if plainFirst {
 		// the pointer-free components get the lowest ids
 		g.ids.plain, g.ids.tag = ecs.ComponentID[PPlain](&w), ecs.ComponentID[PTag](&w)
@@ -753,7 +759,7 @@ func runGCCase(c *gcCase) (msg string, labels map[string]bool, moves int) {
 	if c.Template > 0 {
 		return runTemplate(c.Template-1, c.Tok, c.Clobber, true), map[string]bool{"template " + templateNames[(c.Template-1)%len(templateNames)]: true}, 0
 	}
-	g := newGCWorld(c.Cap, c.PlainFirst)
+	g := newGCWorld(c.Cap, c.PlainFirst, c.Fill)
 	stop := make(chan struct{})
 	var wg sync.WaitGroup
 	var cycles int64
@@ -805,7 +811,7 @@ func runGCCase(c *gcCase) (msg string, labels map[string]bool, moves int) {
 
 func TestC14(t *testing.T) {
 	withStats(t, "C14", func(st *core.Stats) {
-		st.Rule = "(t) 13 call-site templates (World.Set/Assign/NewEntityWith, Builder.New/NewBatchQ/Add, generic Map.Set/Map1.NewWith/Assign, slice, string, write through the Get pointer) whose component literal and referent are locals of a non-inlined function: after it returns the stack is overwritten (generated depth), a GC forced, the entity moved to another table and the referent read back - all templates are walked in every run; (a) generated histories of creations (three supply paths), removals, RemoveEntities, Add/Remove of other components (moves between tables), batch moves (Batch.Add/Remove/Exchange, also removing a pointer-holding component from all its carriers at once), both registration orders of pointer-free and pointer-holding components, relation retargeting, overwriting and Reset on entities whose components hold *T, []T, map, string(+pointer), string only, interface only, func (closure) only, and a relation component with a pointer, referents allocated before and reachable only through the component, with capacity increment 1-2 (growth every few entities) while 0-4 goroutines force collections continuously; after every op every referent is read through its component (token and padding intact) and no referent may have been finalized while its component exists; (b) after removal of the component/entity, overwriting or Reset, a deterministic flush (GC, sentinel finalizer, GC, three rounds) must have run the finalizer of every released referent; non-trivial = a history with >= 3 moves of pointer-holding entities between tables and concurrent collections; the GC schedule is not controlled (stress exploration)"
+		st.Rule = "(t) 13 call-site templates (World.Set/Assign/NewEntityWith, Builder.New/NewBatchQ/Add, generic Map.Set/Map1.NewWith/Assign, slice, string, write through the Get pointer) whose component literal and referent are locals of a non-inlined function: after it returns the stack is overwritten (generated depth), a GC forced, the entity moved to another table and the referent read back - all templates are walked in every run; (a) generated histories of creations (three supply paths), removals, RemoveEntities, Add/Remove of other components (moves between tables), batch moves (Batch.Add/Remove/Exchange, also removing a pointer-holding component from all its carriers at once), both registration orders of pointer-free and pointer-holding components, component ids in every mask word (0-240 filler types registered first), relation retargeting, overwriting and Reset on entities whose components hold *T, []T, map, string(+pointer), string only, interface only, func (closure) only, and a relation component with a pointer, referents allocated before and reachable only through the component, with capacity increment 1-2 (growth every few entities) while 0-4 goroutines force collections continuously; after every op every referent is read through its component (token and padding intact) and no referent may have been finalized while its component exists; (b) after removal of the component/entity, overwriting or Reset, a deterministic flush (GC, sentinel finalizer, GC, three rounds) must have run the finalizer of every released referent; non-trivial = a history with >= 3 moves of pointer-holding entities between tables and concurrent collections; the GC schedule is not controlled (stress exploration)"
 		if path, ok := replaying(); ok {
 			var c gcCase
 			if err := core.ReadReplay(path, &c); err != nil {
@@ -851,6 +857,7 @@ func TestC14(t *testing.T) {
 				n := rapid.IntRange(5, 60).Draw(rt, "nops")
 				kinds := []string{"new", "new", "new", "rm", "rmall", "addplain", "addplain", "remplain", "tag", "tag", "batchtag", "batchuntag", "batchexch", "batchrempointer", "settarget", "settarget", "overwrite", "rempointer", "reset", "flush"}
 				c.PlainFirst = rapid.Bool().Draw(rt, "plainfirst")
+				c.Fill = rapid.SampledFrom([]int{0, 0, 0, 58, 64, 120, 128, 190, 240}).Draw(rt, "fill")
 				for i := 0; i < n; i++ {
 					k := rapid.SampledFrom(kinds).Draw(rt, "k")
 					if k == "reset" && rapid.IntRange(0, 3).Draw(rt, "rarereset") != 0 {
